@@ -1114,7 +1114,12 @@ class SessionTransaction(_StateChange, TransactionalContext):
         """
         assert self._is_transaction_boundary
 
-        to_expunge = set(self._new).union(self.session._new)
+        # objects that left the session since (expunge(), make_transient())
+        # are no longer this session's to restore
+        hash_key = self.session.hash_key
+        to_expunge = {
+            s for s in self._new if s.session_id == hash_key
+        }.union(self.session._new)
         self.session._expunge_states(to_expunge, to_transient=True)
 
         for s, (oldkey, newkey) in self._key_switches.items():
@@ -1126,11 +1131,12 @@ class SessionTransaction(_StateChange, TransactionalContext):
             s.key = oldkey
 
             # now restore the object, but only if we didn't expunge
-            if s not in to_expunge:
+            if s not in to_expunge and s.session_id == hash_key:
                 self.session.identity_map.replace(s)
 
         for s in set(self._deleted).union(self.session._deleted):
-            self.session._update_impl(s, revert_deletion=True)
+            if s.session_id == hash_key and s.key is not None:
+                self.session._update_impl(s, revert_deletion=True)
 
         assert not self.session._deleted
 
@@ -1152,7 +1158,12 @@ class SessionTransaction(_StateChange, TransactionalContext):
                     s._expire(s.dict, self.session.identity_map._modified)
 
             statelib.InstanceState._detach_states(
-                list(self._deleted), self.session
+                [
+                    s
+                    for s in self._deleted
+                    if s._deleted and s.session_id == self.session.hash_key
+                ],
+                self.session,
             )
             self._deleted.clear()
         elif self.nested:
